@@ -489,6 +489,9 @@ def _evaluate(case, o: Oracle, tab: L.Table, m: Mat, eff: int, tname: str) -> No
         o.label("floating")
     if header_only:
         o.label("header_only")
+    if eff > 0 and any(n in L.APP_SEGMENTS and tab.is_static(n) and placed.total > tab.static_offset(n) for n in present):
+        # the image is long enough to have bytes at the place the application has in an image that starts at 0
+        o.label("shadow_risk")
     if case.get("rev_latest"):
         o.label("rev:latest")
     o.nontrivial(len(present) >= 2 or eff > 0)
@@ -603,8 +606,12 @@ def _seg_class(n: str) -> str:
 
 def _compare_parsed(o: Oracle, parsed, expect: dict, present: list, eff: int, tname: str, req, how: str) -> None:
     with o.spsdk("parse_segments", how):
-        o.check("parse_init_offset", parsed.init_offset == eff, how, "%s init %r: image starts at 0x%x, parse decided 0x%x" % (tname, req, eff, parsed.init_offset))
         got = {s.NAME.label: bytes(s.export()) for s in parsed.segments}
+        if parsed.init_offset != eff:
+            # one root cause, one record: the segments of a wrongly located image are not compared
+            o.fail("parse_init_offset", how, "%s init %r: image starts at 0x%x, parse decided 0x%x and reports %s" % (
+                tname, req, eff, parsed.init_offset, {k: len(v) for k, v in got.items()}))
+            return
         for n in present:
             if n not in expect:
                 continue
